@@ -134,7 +134,28 @@ func checkC10(c *Check) {
 				c.curRule = "C10.R1"
 				g := edgesWhere(fn, cBool(vCall("(route.Leaf).Static", vIs(leaf))), true)
 				ok2, path := guardedBy(fn, g, isInstr(in))
-				if ok2 && len(g) > 0 {
+				// the answer is this leaf's, asked in this iteration: an SSA value defined in a loop names a new leaf
+				// on every pass, so a verdict carried over from an earlier pass (a hoisted `static` flag) is about
+				// another method's leaf, whose tree has other siblings
+				stale := false
+				if def, isI := strip(leaf).(ssa.Instruction); isI && ok2 && len(g) > 0 {
+					if e, isE := def.(*ssa.Extract); isE {
+						if ti, isTI := e.Tuple.(ssa.Instruction); isTI {
+							def = ti
+						}
+					}
+					isStaticCall := func(i2 ssa.Instruction) bool {
+						v, isV := i2.(ssa.Value)
+						return isV && vCall("(route.Leaf).Static", vIs(leaf))(v)
+					}
+					if x2, pth := (Query{Fn: fn, Avoid: isStaticCall}).After(def, isInstr(in)); x2 != nil {
+						stale = true
+						c.Bad(key+":guard", pos, "the shortcut insert can be reached from the leaf's creation without asking this leaf's Static() on the way: a verdict obtained for another method's leaf (hoisted out of the per-method loop) is reused although Static() depends on the siblings in each method's tree", blockPath(pth))
+					}
+				}
+				if stale {
+					// reported above
+				} else if ok2 && len(g) > 0 {
 					c.OK(key+":guard", pos, "insert reachable only through leaf.Static() == true for the stored leaf", numInstrs(fn))
 				} else {
 					c.Bad(key+":guard", pos, "a leaf can enter the shortcut table without being static: requests for its route text are answered without tree matching", path)
@@ -527,6 +548,10 @@ func checkC10(c *Check) {
 		}
 		c.Cond(ok, key+":earlier-sibling", p.FuncPos(fn), "true only when no earlier sibling has the same literal (scan of parent.getLeaves() up to the leaf itself)", "Static() can be true for a leaf that an earlier optional leaf with the same literal shadows in the tree (Get(\"/a/?b\") then Get(\"/a/b\")): "+why)
 	}
+
+	// ---- R7 Static() answers "is an earlier sibling of the same literal in front of me" from the list order
+	c.Rule("R7", "shared with C01 (R2)", "siblings are inserted behind every entry of the same or higher priority (registered earlier ⇒ earlier in the list): Static() of a leaf is computed once at registration from the siblings in front of it, so a later insert in front of an existing entry would make the table and the tree disagree", 3)
+	c.Share("C01", []string{"R2"}, 3)
 }
 
 type staticImpl struct {
